@@ -52,6 +52,8 @@ N1(sp) == sp.shape[1] - 1
 
 (* one population *)
 SSeg(sp) == QSumSeq([i \in 1..(N1(sp) - 1) |-> sp.cells[i + 1]])                  \* classes 1..n-1
+(* any number of populations: everything except the all-zero and the all-maximum entry *)
+SSegAll(sp) == QSub(SSum(sp), QAdd(sp.cells[1], sp.cells[Len(sp.cells)]))
 SPi(sp) == LET n == N1(sp) IN
     QSumSeq([i \in 1..(n - 1) |-> QMul(QMk(2 * i * (n - i), n * (n - 1)), sp.cells[i + 1])])
 STheta(sp) == QDiv(SSeg(sp), A1(N1(sp)))
@@ -98,7 +100,8 @@ SF4(sp) == Ratio(OverAll(sp, LAMBDA k : QMul(QSub(Fr(sp, k, 1), Fr(sp, k, 2)), Q
 (* admissibility: which statistic is defined for which spectrum *)
 Admissible(stat, sh) ==
     CASE stat \in {"sum"} -> TRUE
-      [] stat \in {"s", "pi", "theta", "d_tajima"} -> Len(sh) = 1 /\ sh[1] >= 3
+      [] stat = "s" -> \A j \in 1..Len(sh) : sh[j] >= 2          \* S: polymorphic in the whole sample, any number of populations
+      [] stat \in {"pi", "theta", "d_tajima"} -> Len(sh) = 1 /\ sh[1] >= 3
       [] stat = "d_fu_li" -> Len(sh) = 1 /\ sh[1] >= 4
       [] stat \in {"pi_xy", "f2"} -> Len(sh) = 2 /\ sh[1] >= 2 /\ sh[2] >= 2
       [] stat = "fst" -> Len(sh) = 2 /\ sh[1] >= 3 /\ sh[2] >= 3
@@ -109,7 +112,7 @@ Admissible(stat, sh) ==
 SStat(stat, sp) ==
     IF ~Admissible(stat, sp.shape) THEN NotDefined
     ELSE CASE stat = "sum" -> Fin(SSum(sp))
-           [] stat = "s" -> Fin(SSeg(sp))
+           [] stat = "s" -> Fin(SSegAll(sp))
            [] stat = "pi" -> Fin(SPi(sp))
            [] stat = "theta" -> Fin(STheta(sp))
            [] stat = "d_tajima" -> STajimaD(sp)
@@ -137,8 +140,10 @@ MeanSites(sites, F(_)) == Ratio(SumSites(sites, F), QI(Len(sites)))
 
 GSum(pops, sites) == Fin(QI(Len(sites)))
 (* polymorphic: the sample carries both alleles *)
+TotalAlt(pops, site) == SeqSum([j \in 1..Len(pops) |-> AltIn(pops, site, j)])
+TotalChrom(pops) == SeqSum([j \in 1..Len(pops) |-> NChrom(pops, j)])
 GSeg(pops, sites) ==
-    Fin(QI(Cardinality({s \in 1..Len(sites) : AltIn(pops, sites[s], 1) \notin {0, NChrom(pops, 1)}})))
+    Fin(QI(Cardinality({s \in 1..Len(sites) : TotalAlt(pops, sites[s]) \notin {0, TotalChrom(pops)}})))
 (* mean number of pairwise differences between the n sampled chromosomes: per site k(n-k) pairs differ of n(n-1)/2 *)
 GPi(pops, sites) == LET n == NChrom(pops, 1) IN
     Fin(SumSites(sites, LAMBDA site : LET k == AltIn(pops, site, 1) IN QMk(2 * k * (n - k), n * (n - 1))))
